@@ -28,12 +28,18 @@ def kvList (s : String) : Option (List (Bytes × Bytes)) :=
 def field (pre : String) (tok : String) : Option String :=
   if tok.startsWith pre then some (tok.drop pre.length).toString else none
 
-/-- pseudo-random body: x' = (x * 1103515245 + 12345) mod 2^31, byte = x' >> 16 -/
-def randBody : Nat → Nat → List UInt8 → List UInt8
+/-- pseudo-random block: x' = (x * 1103515245 + 12345) mod 2^31, byte = x' >> 16 -/
+def randBlock : Nat → Nat → List UInt8 → List UInt8
   | 0, _, acc => acc.reverse
   | n + 1, x, acc =>
     let x' := (x * 1103515245 + 12345) % 2147483648
-    randBody n x' ((x' / 65536 % 256).toUInt8 :: acc)
+    randBlock n x' ((x' / 65536 % 256).toUInt8 :: acc)
+
+/-- test body: a pseudo-random block of (up to) 65521 bytes, repeated cyclically -/
+def randBody (len seed : Nat) (_ : List UInt8) : List UInt8 :=
+  let blk := randBlock (min len 65521) seed []
+  if len ≤ 65521 then blk
+  else ((List.replicate (len / 65521 + 1) blk).flatten).take len
 
 def bodyOf (tok : String) : Option Bytes :=
   if tok = "-" then some []
